@@ -49,6 +49,7 @@ type Outcome struct {
 	IndependentHandovers int
 	Err                  string
 	FaultsApplied        int
+	NotEnoughShards      int // fitting targets left unscraped in the final state because max-shard is reached and no shard has room
 }
 
 func fits(w *World, id int) bool {
@@ -66,6 +67,35 @@ func fits(w *World, id int) bool {
 func oversizedFromStart(w *World, id int) bool {
 	s, t, _ := w.Estimate(id)
 	return (w.Spec.MaxHead != 0 && s > w.Spec.MaxHead) || t > w.Spec.MaxProc
+}
+
+// notEnoughShards: the number of shards is at max-shard and, by the sizes the shards really hold,
+// no shard has room (the coordinator's own rule: head+series < max-head and process+total <
+// max-process) for the target.
+func notEnoughShards(w *World, s Snapshot, id int) bool {
+	if int32(len(s.Shards)) < w.Spec.Max {
+		return false
+	}
+	es, et, _ := w.Estimate(id)
+	k, tot := w.CurrentSize(id)
+	if int64(k) > es {
+		es = int64(k)
+	}
+	if int64(tot) > et {
+		et = int64(tot)
+	}
+	for _, m := range s.Shards {
+		var head, proc int64
+		for held := range m {
+			hk, ht := w.CurrentSize(held)
+			head += int64(hk)
+			proc += int64(ht)
+		}
+		if (w.Spec.MaxHead == 0 || head+es < w.Spec.MaxHead) && proc+et < w.Spec.MaxProc {
+			return false
+		}
+	}
+	return true
 }
 
 // convergedNow evaluates the C03 predicate on a snapshot.
@@ -91,6 +121,11 @@ func convergedNow(w *World, s Snapshot) (bool, string) {
 			}
 		case health == "up" && fits(w, id):
 			if n == 0 {
+				if notEnoughShards(w, s, id) {
+					// the property presupposes "enough allowed shards": max-shard is reached and no
+					// shard has room for this target next to what it really holds
+					continue
+				}
 				return false, fmt.Sprintf("healthy target %d that fits a shard is scraped by no shard", id)
 			}
 			if n > 1 {
@@ -411,6 +446,17 @@ func Run(sc Scenario, root string, rseed int64) *Outcome {
 			if stable >= M {
 				out.Converged = true
 				out.ConvergedAt = c - M
+				for _, id := range w.Discovered() {
+					held := false
+					for _, m := range snap.Shards {
+						if _, ok := m[id]; ok {
+							held = true
+						}
+					}
+					if _, _, h := w.Estimate(id); !held && h == "up" && fits(w, id) && !oversizedFromStart(w, id) {
+						out.NotEnoughShards++
+					}
+				}
 				return out
 			}
 		} else {
